@@ -90,6 +90,7 @@ type isoState struct {
 	healL   int
 	healT   uint64
 	healSet bool
+	healIso []bool // which servers were isolated at the heal
 }
 
 func newIsoState(n int) *isoState {
@@ -193,30 +194,41 @@ func (o *Oracle) onHeal() {
 		return
 	}
 	is.healSet, is.healAt, is.healL, is.healT = true, w.now(), leader.node.idx, leader.r.CurrentTerm()
+	is.healIso = make([]bool, len(w.nodes))
+	for i := range w.nodes {
+		is.healIso[i] = is.since[i] != 0
+	}
+}
+
+// onVoteRequestSent: a rejoined pre-vote server whose log is not ahead must not start a real
+// election (a RequestVote with a higher term) against the leader that is still healthy.
+func (o *Oracle) onVoteRequestSent(inc *Inc, m *Msg) {
+	w := o.w
+	is := o.iso
+	if !w.cfg.IsolationOracle || !is.healSet || m.Kind != "RV" || m.Src >= len(is.healIso) || !is.healIso[m.Src] {
+		return
+	}
+	if w.now()-is.healAt > 5*w.cfg.ElectionTimeout {
+		is.healSet = false
+		return
+	}
+	l := w.nodes[is.healL]
+	if l.inc == nil || !l.inc.alive || l.inc.r.State() != raft.Leader || l.inc.r.CurrentTerm() != is.healT {
+		is.healSet = false // the leader has gone for reasons of its own: elections are legitimate now
+		return
+	}
+	if req, ok := m.Req.(*raft.RequestVoteRequest); ok && req.Term > is.healT && !req.LeadershipTransfer {
+		w.stats.probe("rejoin_after_isolation_checked")
+		w.violate("C14", "C14/rejoin-disrupted-leader", "s%d rejoined after isolation with a log that is not ahead and asks for votes in term %d while s%d is a healthy leader of term %d",
+			m.Src, req.Term, is.healL, is.healT)
+	}
 }
 
 func (o *Oracle) checkHealOutcome() {
-	w := o.w
 	is := o.iso
-	if !is.healSet {
-		return
-	}
-	if w.now()-is.healAt < 5*w.cfg.ElectionTimeout {
-		// any new fault in the window cancels the check
-		if w.net.anyBlocked() {
-			is.healSet = false
-		}
-		return
-	}
-	is.healSet = false
-	n := w.nodes[is.healL]
-	if n.inc == nil || !n.inc.alive {
-		return
-	}
-	w.stats.probe("rejoin_after_isolation_checked")
-	if n.inc.r.State() != raft.Leader || n.inc.r.CurrentTerm() != is.healT {
-		w.violate("C14", "C14/rejoin-disrupted-leader", "s%d was a stable leader of term %d when the isolated pre-vote servers rejoined; 5 election time-outs later it is %v in term %d",
-			n.idx, is.healT, n.inc.r.State(), n.inc.r.CurrentTerm())
+	if is.healSet && o.w.now()-is.healAt > 5*o.w.cfg.ElectionTimeout {
+		is.healSet = false
+		o.w.stats.probe("rejoin_window_passed_without_disruption")
 	}
 }
 
